@@ -13,7 +13,7 @@ import (
 
 const (
 	ampleGas         = uint64(1) << 40             // gas of the reference / budget of the in-tree EVM
-	workLimitDefault = uint64(10000000)            // cases doing more work than this on the reference are excluded (families 1 and 3)
+	workLimitDefault = uint64(3000000)             // cases doing more work than this on the reference are excluded (families 1 and 3)
 	workLimitShort   = uint64(250000)              // the same for family 2, whose loop-free programs need < 10^5
 	starveThreshold  = ampleGas - workLimitDefault // a step cheaper than this that fails for gas on the reference = caller-supplied-gas artefact
 	callBaseGas      = uint64(700)
